@@ -97,7 +97,7 @@ def setDefaults (k : Kind) (c : Cfg) : Cfg :=
     { c with inputLen1 := il1, hashBits1 := hb1, inputLen2 := il2, hashBits2 := hb2 }
   | .BUP =>
     let c := bufDefaults c
-    { c with inputLen := if c.inputLen = 0 then Facts.defInputLen else c.inputLen,
+    { c with inputLen := if c.inputLen = 0 then Facts.defBucketInputLen else c.inputLen,
              hashBits := if c.hashBits = 0 then Facts.defBucketHashBits else c.hashBits,
              bucketSize := if c.bucketSize = 0 then Facts.defBucketSize else c.bucketSize }
   | .GSAP =>
@@ -107,7 +107,7 @@ def setDefaults (k : Kind) (c : Cfg) : Cfg :=
     -- `if bc.BufferSize == 0 { bc.SetDefaults(); bc.BufferSize = bc.WindowSize }` is what
     -- BufConfig.SetDefaults does anyway
     let c := bufDefaults c
-    { c with minMatchLen := if c.minMatchLen = 0 then Facts.defMinMatchLen else c.minMatchLen,
+    { c with minMatchLen := if c.minMatchLen = 0 then Facts.defOsapMinMatchLen else c.minMatchLen,
              maxMatchLen := if c.maxMatchLen = 0 then Facts.defMaxMatchLen else c.maxMatchLen,
              cost := if c.cost = "" then Facts.defCost else c.cost }
 
@@ -134,7 +134,7 @@ def verify (k : Kind) (c : Cfg) : Bool :=
       hashVerify c.inputLen2 c.hashBits2 Facts.maxHashBits && decide (c.inputLen1 < c.inputLen2)
   | .BUP =>
     bufVerify c && hashVerify c.inputLen c.hashBits Facts.maxBucketHashBits &&
-      decide (1 ≤ c.bucketSize ∧ c.bucketSize ≤ Facts.maxBucketSize)
+      decide (Facts.minBucketSize ≤ c.bucketSize ∧ c.bucketSize ≤ Facts.maxBucketSize)
   | .GSAP =>
     bufVerify c && decide (2 ≤ c.minMatchLen) && decide (c.minMatchLen ≤ c.windowSize) &&
       decide (c.windowSize ≤ Facts.maxInt32)
